@@ -1,9 +1,21 @@
 #!/bin/bash
-# run every seeded change under /verif/seeded (or /tmp/seeds) against the check of its property; prints a table
+# run every seeded change under /verif/seeded (or the given dir) against the check of its property; prints a table and
+# records in each meta.json what was run and which obligations fired ("checks_run", "caught_by")
 src=${1:-/verif/seeded}
 for d in $(ls -d $src/*/ 2>/dev/null | sort); do
   id=$(basename $d); prop=$(python3 -c "import json;print(json.load(open('$d/meta.json'))['property'])")
   extra=$(python3 -c "import json;print(' '.join(json.load(open('$d/meta.json')).get('also_check',[])))")
-  r=$(/verif/tools/seedtest.sh $d/patch.diff $prop $extra 2>&1 | grep "^\[" | tr '\n' ' ')
+  out=$(/verif/tools/seedtest.sh $d/patch.diff $prop $extra 2>&1)
+  r=$(echo "$out" | grep "^\[" | tr '\n' ' ')
   echo "$id: $r"
+  SEED_OUT="$out" python3 - "$d/meta.json" "$prop $extra" <<'PY'
+import json,os,re,sys
+p=sys.argv[1]; m=json.load(open(p))
+out=os.environ['SEED_OUT']
+obls=sorted(set(re.sub(r'/\d+$','',x) for x in re.findall(r'obligation=(\S+)',out)))
+m['checks_run']=['git -C /repo apply patch.diff; bin/exovc check -p %s -tier quick; git -C /repo apply -R patch.diff'%q for q in sys.argv[2].split()]
+m['caught_by']=obls
+m['detected']=bool(obls)
+json.dump(m,open(p,'w'),indent=1)
+PY
 done
